@@ -552,7 +552,8 @@ fn vargrid(maxw: u32, maxh: u32) -> String {
 
 pub fn run(sc: &Scenario, sim: &Shared) {
     for (i, a) in sc.ops.iter().enumerate() {
-        let text: String = match a[0].as_str() {
+        // a panic anywhere inside an operation is a result ("R=panic"), never the end of the run
+        let text: String = catch_unwind(AssertUnwindSafe(|| -> String { match a[0].as_str() {
             "rect" => {
                 let v: Vec<u32> = a[1..].iter().map(|s| num(s) as u32).collect();
                 let ra = Rect::new(v[0], v[1], v[2], v[3]);
@@ -671,7 +672,7 @@ pub fn run(sc: &Scenario, sim: &Shared) {
                 format!("H={:016x}", h)
             }
             _ => "unsup".into(),
-        };
+        } })).unwrap_or_else(|_| "R=panic".into());
         let mut s = sim.borrow_mut();
         s.out.push_str(&format!("X {} {}\n", i, text));
     }
